@@ -897,6 +897,14 @@ static int handleReqResponse(KSI_HighAvailabilityService *has, KSI_AsyncHandle *
 	if (reqState == KSI_ASYNC_STATE_WAITING_FOR_RESPONSE || reqState == KSI_ASYNC_STATE_ERROR) {
 		KSI_AsyncHandle *hndlRef = NULL;
 
+		/* Queue the request for the caller first: if that fails, the request is left as it was. */
+		res = KSI_AsyncHandleList_append(has->respQueue, (hndlRef = KSI_AsyncHandle_ref(reqHndl)));
+		if (res != KSI_OK) {
+			KSI_AsyncHandle_free(hndlRef);
+			KSI_pushError(has->ctx, res, NULL);
+			goto cleanup;
+		}
+
 		/* Clear error response, if it has been received from any subservice. */
 		if (reqState == KSI_ASYNC_STATE_ERROR) {
 			reqHndl->err = KSI_OK;
@@ -920,13 +928,6 @@ static int handleReqResponse(KSI_HighAvailabilityService *has, KSI_AsyncHandle *
 		respHndl->respCtx_free = NULL;
 
 		reqHndl->parentId = respHndl->parentId;
-
-		res = KSI_AsyncHandleList_append(has->respQueue, (hndlRef = KSI_AsyncHandle_ref(reqHndl)));
-		if (res != KSI_OK) {
-			KSI_AsyncHandle_free(hndlRef);
-			KSI_pushError(has->ctx, res, NULL);
-			goto cleanup;
-		}
 	}
 
 	res = KSI_OK;
@@ -1038,20 +1039,24 @@ static int responseHandler(KSI_HighAvailabilityService *has, KSI_Config_Callback
 
 		switch (respState) {
 			case KSI_ASYNC_STATE_PUSH_CONFIG_RECEIVED:
-				handleConfigResponse(has, as, respHndl, confCallback);
+				res = handleConfigResponse(has, as, respHndl, confCallback);
 				break;
 
 			case KSI_ASYNC_STATE_RESPONSE_RECEIVED:
-				handleReqResponse(has, respHndl);
+				res = handleReqResponse(has, respHndl);
 				break;
 
 			case KSI_ASYNC_STATE_ERROR:
-				handleErrorResponse(has, respHndl);
+				res = handleErrorResponse(has, respHndl);
 				break;
 
 			default:
 				/* Do nothing! */
 				break;
+		}
+		if (res != KSI_OK) {
+			KSI_pushError(has->ctx, res, NULL);
+			goto cleanup;
 		}
 
 		KSI_AsyncHandle_free(respHndl);
